@@ -17,7 +17,7 @@ import random
 import subprocess
 from concurrent.futures import ThreadPoolExecutor
 
-from .. import codec, endpoint, gen, tlc
+from .. import codec, endpoint, gen, paramwire, tlc
 from ..common import VENV_PY, rmtree, scratch, seed
 from . import C02 as c02
 from . import C12 as c12
@@ -181,6 +181,12 @@ def run(rep) -> None:
                 if isinstance(o, dict) and (o.get("raised") or o.get("truthful_return") is False):
                     rep.violate(f"C11/return-annotation-untruthful/union-response/{cid.split('-')[0]}", f"{cid}: {o.get('raised') or o.get('return')} annotated {o.get('return_hint')}")
         packages.append(d / "unionresp")
+        # ---- ParamWire.tla W1: every value class admitted by a parameter's annotation is accepted by the encoder (all locations x kinds x
+        # required x nullable x enum style, blocking and asyncio)
+        paramwire.judge(rep, "C11", d)
+        for style in ("class", "literal"):
+            if (d / "paramwire" / f"pw_{style}").is_dir():
+                packages.append(d / "paramwire" / f"pw_{style}")
         # ---- request universe package + structured + rich documents, for mypy
         reqs = endpoint.enumerate_universe("request", 1, d)
         rops = {}
